@@ -30,6 +30,9 @@ def gen_c09(tier, rng):
         for n in ((2, 4, 8) if big else (2, 4)):
             for k in range(3 if big else 1):
                 out.append("\t".join(["mt", "stress", sink, str(n), "3", "9", str(rng.below(10 ** 6)), "asan"]))
+        # records of megabytes from one thread while the others keep logging short ones
+        for n, mb in (((2, 2), (4, 4), (8, 8), (4, 16)) if big else ((4, 2),)):
+            out.append("\t".join(["mt", "heavy", sink, str(n), "2", str(mb), str(rng.below(10 ** 6)), "asan"]))
         for n in ((2, 4, 8) if big else (4,)):
             for r in ((100, 250) if big else (60,)):
                 for mode in (6, 7, 8):
@@ -49,7 +52,9 @@ C09 = Prop(
          "writer B given 300 ms to get in) for 14 pairs of severities (every severity of B against info, every severity "
          "of A, fatal/fatal) and stress runs with N in {2,4,8} threads x 20/120 records of varying length and mixed "
          "severities (thorough: up to 250, more seeds, more mixes) with yields, byte-exact reassembly of the device "
-         "contents; ThreadSanitizer builds. The model side runs the *extracted* per-severity sink bodies under seeded "
+         "contents; records of 2 MiB (thorough: up to 16 MiB) from one thread while three (1..7) others log 1500 short "
+         "records each (for these the model side does not simulate: it answers from the theorem when the extracted "
+         "bodies have the proved shape, and 'not-proved' otherwise); ThreadSanitizer builds. The model side runs the *extracted* per-severity sink bodies under seeded "
          "pseudo-random schedules. Severity mode 8: every statement's operand is a callable that logs a record of its own "
          "(nested statements on one thread: two records per statement). Non-trivial: at least 2 threads. Distinct = "
          "distinct case line.",
